@@ -212,6 +212,47 @@ func runCheck(repo, verif, prop string, thorough, verbose, writeEvidence, update
 		}
 		targets = append(targets, target{fn: fn, fc: fc, extra: mine})
 	}
+	// implementations of read-only interface methods inherit the frame obligation
+	for _, key := range sortedKeys(eng.funcs) {
+		fn := eng.funcs[key]
+		if fn.Synthetic != "" {
+			continue
+		}
+		nomod, props := eng.ifaceNoModFor(fn)
+		if !nomod || !contains(props, prop) {
+			continue
+		}
+		found := false
+		for i := range targets {
+			if targets[i].fn == fn {
+				found = true
+				if targets[i].fc == nil || !(targets[i].fc.NoMod || targets[i].fc.Pure) {
+					var cp FuncContract
+					if targets[i].fc != nil {
+						cp = *targets[i].fc
+					} else {
+						cp = FuncContract{Pkg: fnPkgPath(fn), Name: relName(fn), LoopInv: map[int][]*Clause{}, Nilable: map[string]bool{}}
+					}
+					cp.NoMod = true
+					cp.Props = unionProps(cp.Props, []string{prop})
+					targets[i].fc = &cp
+				}
+			}
+		}
+		if !found {
+			fc := eng.contractFor(fn)
+			if fc != nil && (fc.Trusted || fc.NoMod || fc.Pure) {
+				continue
+			}
+			cp := FuncContract{Pkg: fnPkgPath(fn), Name: relName(fn), LoopInv: map[int][]*Clause{}, Nilable: map[string]bool{}, NoMod: true, Props: []string{prop}}
+			if fc != nil {
+				cp = *fc
+				cp.NoMod = true
+				cp.Props = unionProps(cp.Props, []string{prop})
+			}
+			targets = append(targets, target{fn: fn, fc: &cp})
+		}
+	}
 	for _, t := range targets {
 		res := eng.encodeFunction(t.fn, t.fc, t.extra)
 		run.results = append(run.results, res)
